@@ -81,7 +81,15 @@ ASSUMPTIONS = [
     "unobserved copy not summed, M5 pillow variable also in the district, D1 two copies reach line 9, D2 several worlds get the "
     "union of subscripts). A blamed step that shows NONE of the patterns gets the key 'none', which is never listed, i.e. it is "
     "reported as a new violation; a failure that cannot be located (crashes, other steps) is keyed by its shrunk input as "
-    "before. A new defect that only ever co-occurs with a listed pattern at the same step would be masked",
+    "before. Attribution to a listed finding needs TWO things: the blamed step shows a listed pattern AND the Lean model -- the "
+    "correspondence-checked copy of the code the findings were written about -- returns the very same answer on that input under the "
+    "same iteration order (one driver call per failing input); a wrong answer that differs from the model's gets the never-listed key "
+    "[differs-from-the-wrong-answer-of-the-modelled-code, ...] and shrinking keeps that key.  A new defect that only ever co-occurs "
+    "with a listed pattern at the same step AND leaves the answer of the unchanged code untouched there would still be masked",
+    "vocabulary: an estimand with a term that mixes variables of different worlds is a failure of kind 'vocabulary' whatever its value "
+    "(a counterfactual joint distribution is not an interventional term: nothing has been identified, and the reading convention of the "
+    "property -- 'literal values for intervention subscripts' of a term -- does not apply to it); the unchanged code never returns one "
+    "(idstar_vocab, Props/C06Cf.lean); seeded/C06b is caught by this clause with a concrete replay",
 ]
 EXHAUSTIVE = {"quick": False, "thorough": True}   # thorough: every graph on <=2 nodes x every event with <=2 conjuncts
 LEANCHECK_MODULES = ["Y0.Model.Cg", "Y0.Model.IdStar", "Y0.Props.C07"]
@@ -822,6 +830,7 @@ MANIFEST = {
              "all set-iteration orders (the fragment membership tests are part of the compared output); the reading convention of "
              "estimands stated in ASSUMPTIONS; sampled models (8 per case). One small defect was fixed (line 9 marginalisation, "
              "4295b26); the F10 family stays open: 10 finding keys for C07 (failure kind x step of the blamed recursive call x known "
-             "defect pattern), each with a minimal example."),
+             "defect pattern), each with a minimal example; a wrong answer is excused by a listed finding only if the model returns the same "
+             "wrong answer on that input; an estimand with a multi-world term is a failure whatever its value."),
     "technique": "Lean 4 theorems (termination; soundness on single-world events of any polarity, on what lines 2-3 reduce to them and on multi-world events with a clean counterfactual graph, over all functional SCMs; Zero and refusal characterisations; lines 2-3-5; error taxonomy; vocabulary invariant) + differential correspondence + exact-rational functional-SCM oracle + located known findings",
 }
